@@ -1112,3 +1112,42 @@ def rule_forged_visible_to_inspect(check, rule):
                             'its __call__ (*args/**kwargs), which accepts calls the combined functions reject' % ci.name, key=key,
                             witness='inspect.signature(wrappers.Combination(f, g)) is (arg, *args, **kwargs) for f(arg, y), g(arg, y)')
     check.floor(rule, 'forger-carrying callable classes of wrappers.py', n, 2)
+
+
+def rule_transparent_receiver(check, rule, module, classes=None):
+    """(D53, known) "accepts exactly the calls that signature accepts" / "returns exactly what the hand-written composition returns for every
+    call".  A pass-through `__call__(self, ..., *args, **kwargs)` that hands `**kwargs` on to the user's function takes every keyword the
+    advertised signature accepts -- except the names of its own positional-or-keyword parameters: `f(self=1)` for a function with a
+    parameter (or a **kwargs) that takes `self` fails with "got multiple values for argument 'self'" before the body runs.  Each such
+    method declares its own parameters positional-only (`/`), or takes them out of `*args` itself."""
+    import ast as _ast
+    repo = check.repo
+    m = repo.module(module)
+    n = 0
+    for ci in m.classes.values():
+        if classes is not None and ci.name not in classes:
+            continue
+        meth = ci.methods.get('__call__')
+        if meth is None:
+            continue
+        a = meth.node.args
+        if a.kwarg is None:
+            continue
+        forwards = any(isinstance(c, _ast.Call) and any(k.arg is None and isinstance(k.value, _ast.Name) and k.value.id == a.kwarg.arg for k in c.keywords)
+                       for c in _ast.walk(meth.node))
+        if not forwards:
+            continue
+        n += 1
+        check.analysed(meth)
+        named = [x.arg for x in a.args]
+        key = 'receiver-name|%s.%s' % (ci.name, meth.name)
+        st = '%s %s' % (meth.loc(), meth.key)
+        if named:
+            check.violation(rule, st, '%s.__call__(%s, *%s, **%s) hands **%s on, but a keyword named %s can never reach the wrapped function: it collides '
+                            'with the method\'s own parameter' % (ci.name, ', '.join(named), a.vararg.arg if a.vararg else '', a.kwarg.arg, a.kwarg.arg,
+                                                                  ' / '.join(repr(x) for x in named)), key=key,
+                            witness="@kwoargs('b')\ndef g(a, b, **kwargs): ...\ng(1, b=2, self=3) raises TypeError: got multiple values for argument 'self'")
+        else:
+            check.holds(rule, st, '%s.__call__ has no positional-or-keyword parameter of its own: every keyword reaches the wrapped function' % ci.name,
+                        key=key)
+    check.floor(rule, 'pass-through __call__ methods of %s.py' % module, n, 1)
